@@ -85,7 +85,9 @@ def run_job(job, bdir, backends=("cadical",), timeout=300, trace=False, incdirs=
         cmd += ["--enforce-contract-rec" if job.rec else "--enforce-contract", job.enforce]
     for r in job.replace:
         cmd += ["--replace-call-with-contract", r]
-    cmd += ["--apply-loop-contracts", gb1, gb2]
+    if not (job.unwind and job.kind == "function"):
+        cmd += ["--apply-loop-contracts"]
+    cmd += [gb1, gb2]
     job.cmds.append(" ".join(cmd))
     rc, out, err, _ = run(cmd, 300)
     if rc != 0:
@@ -95,7 +97,15 @@ def run_job(job, bdir, backends=("cadical",), timeout=300, trace=False, incdirs=
     for backend in backends:
         cmd = ["cbmc", gb2, "--object-bits", OBJECT_BITS] + CBMC_CHECKS + solver_flags(backend) + ["--json-ui"]
         if job.unwind:
-            cmd += ["--unwind", str(job.unwind), "--unwinding-assertions"]
+            # complete unwinding of the loops of the function under contract only (their trip count is bounded by a
+            # declared array size); the loops of the DFCC library keep cbmc's own handling
+            rc0, out0, _, _ = run(["cbmc", gb2, "--show-loops"], 120)
+            ids = re.findall(r"^Loop (\S+):", out0, re.M)
+            mine = [i for i in ids if not i.startswith("__CPROVER") and not i.startswith("h_")]
+            if job.kind == "lemma":
+                mine = [i for i in ids if not i.startswith("__CPROVER")]
+            if mine:
+                cmd += ["--unwindset", ",".join("%s:%d" % (i, job.unwind) for i in mine), "--unwinding-assertions"]
         if trace:
             cmd += ["--trace"]
         job.cmds.append(" ".join(cmd))
